@@ -1205,11 +1205,14 @@ func main() {
 	g.retained = nil
 	g.concurrentPass(8)
 
+	// nil pointers: the ten objects of theorem C13_nil_refuted on the implementation (nil.go)
+	brokenNil := nilWitnesses(st)
+
 	if err := g.w.Flush(); err != nil {
 		panic(err)
 	}
 	st.Evaluations = g.w.Count()
-	if err := st.Write(filepath.Join(*out, "stats_C13.json")); err != nil {
+	if err := writeStats(st, filepath.Join(*out, "stats_C13.json"), brokenNil); err != nil {
 		panic(err)
 	}
 	fmt.Printf("C13 harness: %d cases, %d distinct non-trivial\n", st.Evaluations, st.Distinct)
